@@ -38,7 +38,7 @@ def render_dml(d):
         return q + (" WHERE " + cond(d["where"]) if d["where"] else "")
     if d["k"] == "delete":
         return "DELETE FROM %s" % d["t"] + (" WHERE " + cond(d["where"]) if d["where"] else "")
-    types = {"a": "INT", "b": "VARCHAR(8)"}
+    types = {"a": "INT", "b": "VARCHAR(8)", "c": "VARCHAR(2147483648)"}
     return "CREATE TABLE %s (%s)" % (d["t"], ", ".join("%s %s" % (c, types[c]) for c in d["cols"]))
 
 
@@ -49,14 +49,16 @@ def run(ctx):
     vlib.tlc_must_ok(ctx, res, "StmtGen")
     rng = random.Random(ctx.seed)
     tables = sets["tables8"]
-    comps = [sets["froms8"], sets["lists8"], sets["wheres8"], sets["groups8"], sets["orders8"], sets["limoffs"]]
+    HUGE = 9223372036854775807
+    big = lambda x: HUGE if x == -2 else x
+    comps = [sets["froms8"], sets["lists8"], sets["wheres8"], sets["groups8"], sets["orders8"], sets["limoffs8"]]
     tuples = semlib.cover_product(rng, comps, N[ctx.tier])
     states = ["nulls", "nulls", "nulls", "empty", "nodb", "badu"]
     reqs = {}
     n_stmt = 0
     for n, (f, l, w, g, o, lm) in enumerate(tuples):
         q = dict(**{"from": comps[0][f]}, list=comps[1][l], where=comps[2][w], group=comps[3][g], order=comps[4][o],
-                 limit=comps[5][lm]["limit"], offset=comps[5][lm]["offset"], style=n % 8, raw="")
+                 limit=big(comps[5][lm]["limit"]), offset=big(comps[5][lm]["offset"]), style=n % 8, raw="")
         st = states[n % len(states)]
         t = rng.randrange(1, len(tables)) if st in ("nulls", "badu") else 0
         key = (st, t, n // 1200)
